@@ -1,3 +1,172 @@
-(** C12 (stub, theorems follow) *)
-From Coq Require Import List Arith NArith ZArith.
-Require Import Celma.Common.Res Celma.Bitset.BsModel.
+(** C12  Dynamic bitset behaves like a growable reference bit vector.
+    Only statements; every proof is [exact <lemma of Bitset/BsProofs.v>].
+
+    Model: Bitset/BsModel.v (storage = list bool, checked accesses, loops and
+    guards of dynamic_bitset.cpp / dynamic_bitset_iterator.hpp, with
+    fixes/C12-1..3 applied; the members those patches change are kept in their
+    pinned form as [*_pinned]).
+    Reference: Bitset/BsSpec.v ([rbv] = size + function position -> bit, every
+    operation restated without storage; [positions] = ascending set positions). *)
+From Coq Require Import List Arith NArith ZArith Bool.
+Import ListNotations.
+Require Import Celma.Common.Res Celma.Bitset.BsModel Celma.Bitset.BsSpec Celma.Bitset.BsProofs.
+
+(** After ANY sequence of operations, started from any bitset [d] that stores a
+    reference vector [r]: the model never faults (no access outside the
+    storage), every step returns what the reference returns (value or exception),
+    and after every step - and at the end - all observers agree with the
+    reference: size, test and const [] at every position (out_of_range included),
+    count, any, none, all, to_string, to_ulong (overflow_error included), ==
+    against every operand, and the three iteration orders. *)
+Theorem C12_observers_agree :
+  forall ops d r outs d',
+    repr d r -> run d ops = (outs, d') ->
+    exists routs r', rrun r ops = (routs, r') /\
+      Forall2 sout_agree outs routs /\ repr d' r' /\ obs_agree d' r' /\
+      length outs = length ops /\ (forall f, ~ In (SFault f) outs).
+Proof. exact run_spec. Qed.
+Print Assumptions C12_observers_agree.
+
+(** Every way of constructing a bitset yields one that stores a reference
+    vector, so the theorem above applies to every history from construction. *)
+Theorem C12_constructed_has_reference :
+  (forall l, repr l (of_list l)) /\
+  (forall n, repr (m_ctor n) {| rsize := n; rbit := fun _ => false |}).
+Proof. split; [exact of_list_repr|exact ctor_repr]. Qed.
+Print Assumptions C12_constructed_has_reference.
+
+(** One state: storing a reference vector is enough for all observers to agree. *)
+Theorem C12_observers_of_state : forall d r, repr d r -> obs_agree d r.
+Proof. exact repr_obs_agree. Qed.
+Print Assumptions C12_observers_of_state.
+
+(** Compound assignment = binary operator, for every operand and every shift
+    distance, and none of them leaves the storage. *)
+Theorem C12_compound_eq_binary :
+  forall d o n,
+    (m_and_assign d o = m_and d o /\ exists d', m_and d o = Ok d') /\
+    (m_or_assign d o = m_or d o /\ exists d', m_or d o = Ok d') /\
+    (m_xor_assign d o = m_xor d o /\ exists d', m_xor d o = Ok d') /\
+    (m_shl_assign d n = m_shl d n /\ exists d', m_shl d n = Ok d') /\
+    (m_shr_assign d n = m_shr d n /\ exists d', m_shr d n = Ok d').
+Proof. exact compound_eq_binary. Qed.
+Print Assumptions C12_compound_eq_binary.
+
+(** Forward iteration (range-for) visits exactly the set positions in ascending
+    order, reverse iteration (rbegin..rend) and walking back from end() with
+    operator-- visit them in descending order.  The result is [Ok]: the loops end
+    within size+1 steps (no [Fault Fuel]) and no [test] is made outside
+    [0,size) (it would be [Err], see C12_iter_test_outside). *)
+Theorem C12_iteration :
+  forall d r, repr d r ->
+    iter_fwd d = Ok (map Z.of_nat (positions r)) /\
+    iter_rev d = Ok (map Z.of_nat (rev (positions r))) /\
+    iter_back d = Ok (map Z.of_nat (rev (positions r))).
+Proof. exact iteration_spec. Qed.
+Print Assumptions C12_iteration.
+
+Theorem C12_positions_exact :
+  forall r i, In i (positions r) <-> i < rsize r /\ rbit r i = true.
+Proof. exact positions_sound. Qed.
+Print Assumptions C12_positions_exact.
+
+(** None for an empty or all-zero bitset. *)
+Theorem C12_iteration_nothing :
+  forall d, (forall i, nth i d false = false) ->
+    iter_fwd d = Ok [] /\ iter_rev d = Ok [] /\ iter_back d = Ok [].
+Proof. exact iteration_nothing. Qed.
+Print Assumptions C12_iteration_nothing.
+
+(** What a test outside [0,size) inside an iterator would do: throw. *)
+Theorem C12_iter_test_outside :
+  forall d p, ult_size p d = false -> it_test d p = Err EOutOfRange.
+Proof. exact it_test_outside. Qed.
+Print Assumptions C12_iter_test_outside.
+
+(** set / reset / flip / non-const [] at ANY position (in particular at or
+    beyond the size) end normally with the position inside the bitset, the size
+    not smaller than before and the addressed bit as asked. *)
+Theorem C12_grow_never_faults :
+  forall d pos v,
+    (exists d', m_set d pos v = Ok d' /\ pos < length d' /\ length d <= length d' /\ nth pos d' false = v) /\
+    (exists d', m_reset d pos = Ok d' /\ pos < length d' /\ length d <= length d' /\ nth pos d' false = false) /\
+    (exists d', m_flip d pos = Ok d' /\ pos < length d' /\ length d <= length d' /\
+                nth pos d' false = negb (nth pos d false)) /\
+    (exists d', m_index_write d pos v = Ok d' /\ pos < length d' /\ length d <= length d' /\ nth pos d' false = v) /\
+    (exists d', m_index_read d pos = Ok (d', nth pos d false) /\ pos < length d' /\ length d <= length d').
+Proof. exact grow_never_faults. Qed.
+Print Assumptions C12_grow_never_faults.
+
+(** Read-only access at or beyond the size throws out_of_range, below it
+    returns the bit. *)
+Theorem C12_readonly_throws :
+  forall d pos,
+    (length d <= pos -> m_test d pos = Err EOutOfRange /\ m_index_const d pos = Err EOutOfRange) /\
+    (pos < length d -> m_test d pos = Ok (nth pos d false) /\ m_index_const d pos = Ok (nth pos d false)).
+Proof. exact readonly_access. Qed.
+Print Assumptions C12_readonly_throws.
+
+(** to_ulong's accumulation cannot wrap. *)
+Theorem C12_to_ulong_bound : forall d n, m_to_ulong d = Ok n -> (n < 2 ^ 64)%N.
+Proof. exact to_ulong_bound. Qed.
+Print Assumptions C12_to_ulong_bound.
+
+(* ------------------------------------------------------------------ *)
+(** * The pinned tree violates the property in three places (repaired by
+      fixes/C12-1..3; the witnesses are corpus cases of props/C12.py) *)
+
+(** range-for / rbegin() on an empty bitset: out_of_range instead of nothing *)
+Theorem C12_pinned_iterate_empty_refuted :
+  exists d, (forall i, nth i d false = false) /\
+            iter_fwd_pinned d <> Ok [] /\ iter_rev_pinned d <> Ok [].
+Proof. exists []. split; [intros [|i]; reflexivity|]. split; vm_compute; discriminate. Qed.
+Print Assumptions C12_pinned_iterate_empty_refuted.
+
+(** >>= by more than the size leaves the bits, >> clears them *)
+Theorem C12_pinned_shr_assign_refuted :
+  exists d n, m_shr_assign_pinned d n <> m_shr d n.
+Proof. exists [true; true; true; true], 6. vm_compute. discriminate. Qed.
+Print Assumptions C12_pinned_shr_assign_refuted.
+
+(** ... for every bitset and every distance beyond its size it is a no-op *)
+Theorem C12_pinned_shr_assign_noop :
+  forall d n, length d < n -> m_shr_assign_pinned d n = Ok d.
+Proof. exact m_shr_assign_pinned_beyond. Qed.
+Print Assumptions C12_pinned_shr_assign_noop.
+
+(** reset / flip / [] at position = size touch the storage outside, for every bitset *)
+Theorem C12_pinned_grow_guard_refuted :
+  forall d,
+    m_reset_pinned d (length d) = Fault OOBWrite /\
+    m_flip_pinned d (length d) = Fault OOBRead /\
+    (forall v, m_index_write_pinned d (length d) v = Fault OOBWrite) /\
+    m_index_read_pinned d (length d) = Fault OOBRead /\
+    m_index_const_pinned d (length d) = Fault OOBRead.
+Proof. exact pinned_guard_faults. Qed.
+Print Assumptions C12_pinned_grow_guard_refuted.
+
+(* ------------------------------------------------------------------ *)
+(** * Non-vacuity *)
+
+(** a history across growth, shifts beyond the size and the binary operators *)
+Example C12_nonvacuous_history :
+  let '(outs, d') := run [true; false; true]
+       [OSet 7 true; OFlip 12; OShrA 30; OOrA [true; true]; OShlA 3; OReset 40; OTest 100; OIdx 61] in
+  length outs = 8 /\ length d' = 61 /\ iter_fwd d' = Ok [3; 4]%Z /\ iter_rev d' = Ok [4; 3]%Z.
+Proof. vm_compute. repeat split; reflexivity. Qed.
+
+Example C12_nonvacuous_shift_beyond :
+  m_shr_assign [true; true; true; true] 6 = Ok [false; false; false; false] /\
+  m_shr [true; true; true; true] 6 = Ok [false; false; false; false].
+Proof. vm_compute. split; reflexivity. Qed.
+
+Example C12_nonvacuous_pos_eq_size :
+  m_reset [true; true] 2 = Ok [true; true; false; false] /\
+  m_flip [true; true] 2 = Ok [true; true; true; false] /\
+  m_index_const [true; true] 2 = Err EOutOfRange.
+Proof. vm_compute. repeat split; reflexivity. Qed.
+
+Example C12_nonvacuous_iterate_empty :
+  iter_fwd [] = Ok [] /\ iter_rev [] = Ok [] /\ iter_back [] = Ok [] /\
+  iter_fwd (repeat false 70) = Ok [].
+Proof. vm_compute. repeat split; reflexivity. Qed.
